@@ -17,8 +17,14 @@
 use abra_core::check_lsp;
 use std::panic::{AssertUnwindSafe, catch_unwind};
 use vh::*;
+#[path = "../bg8_probes.rs"]
+mod bg8_probes;
+use bg8_probes::{Probe, Want, run_probes};
 
-const NAMES: [&str; 4] = ["a", "b", "c", "d"];
+/// parameter names: a, b, c, d, then p4, p5, …
+fn pname(i: usize) -> String {
+    if i < 4 { ["a", "b", "c", "d"][i].to_string() } else { format!("p{i}") }
+}
 
 #[derive(Clone, Copy, PartialEq, Eq, Debug)]
 enum A {
@@ -65,7 +71,7 @@ impl Form {
 #[derive(Clone, Copy, Debug, PartialEq, Eq)]
 struct PL {
     n: usize,
-    mask: u32,
+    mask: u64,
 }
 impl PL {
     fn has_default(&self, i: usize) -> bool {
@@ -75,9 +81,9 @@ impl PL {
         (0..self.n)
             .map(|i| {
                 if self.has_default(i) {
-                    format!("{}: int = {}", NAMES[i], 900 + i)
+                    format!("{}: int = {}", pname(i), 900 + i)
                 } else {
-                    format!("{}: int", NAMES[i])
+                    format!("{}: int", pname(i))
                 }
             })
             .collect::<Vec<_>>()
@@ -89,7 +95,7 @@ impl PL {
             v.push("self".into());
         }
         for i in 0..self.n {
-            v.push(format!("{}{}", NAMES[i], if self.has_default(i) { "?" } else { "" }));
+            v.push(format!("{}{}", pname(i), if self.has_default(i) { "?" } else { "" }));
         }
         if v.is_empty() { "-".into() } else { v.join(",") }
     }
@@ -142,7 +148,7 @@ fn spec(pl: &PL, args: &[A]) -> Result<Vec<E>, ()> {
 fn arg_text(j: usize, a: A) -> String {
     match a {
         A::Pos => format!("tick({})", 100 + j),
-        A::Name(i) => format!("{} = tick({})", NAMES[i], 100 + j),
+        A::Name(i) => format!("{} = tick({})", pname(i), 100 + j),
         A::Unk => format!("zz = tick({})", 100 + j),
     }
 }
@@ -154,7 +160,7 @@ fn shape_text(args: &[A]) -> String {
     args.iter()
         .map(|a| match a {
             A::Pos => "_".to_string(),
-            A::Name(i) => NAMES[*i].to_string(),
+            A::Name(i) => pname(*i),
             A::Unk => "zz".to_string(),
         })
         .collect::<Vec<_>>()
@@ -193,7 +199,7 @@ const TICK: &str = "fn tick(n: int) -> int {\n  print(\"e\" .. n .. \";\")\n  n\
 
 /// declarations for one (form, parameter list); returns (main prelude text, extra files)
 fn decls(form: Form, pl: &PL) -> (String, Vec<(String, String)>) {
-    let names: Vec<String> = (0..pl.n).map(|i| NAMES[i].to_string()).collect();
+    let names: Vec<String> = (0..pl.n).map(|i| pname(i)).collect();
     match form {
         Form::Fn => (format!("{TICK}fn g({}) {{\n  {}\n}}\n", pl.decl(", "), printer(&names)), vec![]),
         Form::NsFn => (
@@ -226,7 +232,7 @@ fn decls(form: Form, pl: &PL) -> (String, Vec<(String, String)>) {
         }
         Form::Variant | Form::DotVariant => {
             let xs: Vec<String> = (0..pl.n).map(|i| format!("x{i}")).collect();
-            let pat: Vec<String> = (0..pl.n).map(|i| format!("{} = x{}", NAMES[i], i)).collect();
+            let pat: Vec<String> = (0..pl.n).map(|i| format!("{} = x{}", pname(i), i)).collect();
             (
                 format!(
                     "{TICK}type En =\n  | Va({})\n  | Other\nfn show(v: En) {{\n  match v {{\n    .Va({}) -> {}\n    .Other -> println(\"other\")\n  }}\n}}\n",
@@ -511,6 +517,33 @@ fn run_group(g: &Group) -> Vec<CaseOut> {
     outs
 }
 
+
+macro_rules! w {
+    ($f:literal) => {
+        include_str!(concat!("../../probes_bg8/", $f))
+    };
+}
+
+fn fixed_probes() -> Vec<Probe> {
+    let p = |name, main, want| Probe { name, main, files: &[], want };
+    vec![
+        // 32 arguments: the call goes through a function object
+        p("arity-32-positional", w!("A_06.abra"), Want::Out("10912\nABCDEFGHIJKLMNOPQRSTUVWXYZABCDEF\n")),
+        // D87 (79c3120): a variant that carries data cannot be named without its arguments
+        p("D87-payload-variant-without-arguments", w!("A_D3_bare_payload_variant.abra"), Want::Rejected(&["carries data", "arguments are missing"])),
+        // D102: a default on an interface-implementation method works like on any named function
+        p("D102-default-on-impl-method", w!("B_48.abra"), Want::Out("11\n")),
+        // lambdas do not support defaults (lambdas.md): using one is a diagnostic, never a crash
+        p(
+            "D102-default-on-lambda-parameter",
+            "let f = (a: int, b: int = 5) -> a + b\nprintln(f(1))\n",
+            Want::Rejected(&[]),
+        ),
+        // default values holding a match, on a #host declaration, an impl method and a lambda parameter
+        p("match-inside-default-values", w!("B_36.abra"), Want::Out("3\n3\n")),
+    ]
+}
+
 fn main() {
     let mut ctx = Ctx::from_env("C18");
     let max_n = if ctx.quick() { 3 } else { 4 };
@@ -522,7 +555,7 @@ fn main() {
             }
             let shapes = all_shapes(n);
             for mask in 0..(1u32 << n) {
-                let pl = PL { n, mask };
+                let pl = PL { n, mask: mask as u64 };
                 // quick tier: every well-formed shape for every form; the ill-formed ones completely for
                 // free functions, a seeded third of them for the other forms
                 let mut chosen = vec![];
@@ -545,6 +578,42 @@ fn main() {
                 }
                 groups.push(Group { form, pl, shapes: chosen });
             }
+        }
+    }
+    // ---- arity 31, 32, 33 (more than CallData::MAX_NARGS = 31 arguments go through a function object):
+    // defaults on the last ten parameters and on parameter 5; a fixed family of shapes per callee form
+    for &form in FORMS.iter() {
+        for n in [31usize, 32, 33] {
+            let mut mask: u64 = 1 << 5;
+            for i in n - 10..n {
+                mask |= 1 << i;
+            }
+            let pl = PL { n, mask };
+            let req_end = n - 10;
+            let mut shapes: Vec<Vec<A>> = vec![];
+            shapes.push(vec![A::Pos; n]); // all positional
+            shapes.push(vec![A::Pos; req_end]); // trailing defaults omitted
+            shapes.push((0..n).rev().map(A::Name).collect()); // all by name, reversed
+            let mut s = vec![A::Pos; req_end];
+            s.extend((req_end..n).rev().map(A::Name));
+            shapes.push(s); // positional prefix, the rest by name in reverse
+            let mut s = vec![A::Pos; 5];
+            s.extend((6..req_end).rev().map(A::Name)); // parameter 5 and the tail use their defaults
+            s.push(A::Name(n - 1));
+            shapes.push(s);
+            shapes.push(vec![A::Pos; n + 1]); // surplus positional
+            shapes.push(vec![A::Pos; req_end - 1]); // a required parameter missing
+            let mut s = vec![A::Pos; req_end];
+            s.push(A::Name(3));
+            shapes.push(s); // by position and by name
+            let mut s = vec![A::Pos; req_end];
+            s.push(A::Unk);
+            shapes.push(s); // unknown name
+            let mut s = vec![A::Pos; req_end];
+            s.push(A::Name(n - 1));
+            s.push(A::Pos);
+            shapes.push(s); // positional after named
+            groups.push(Group { form, pl, shapes });
         }
     }
     let results = par_map(&groups, run_group);
@@ -595,5 +664,6 @@ fn main() {
             ctx.case(req, c.imp);
         }
     }
+    run_probes(&mut ctx, &fixed_probes());
     ctx.finish();
 }
